@@ -719,11 +719,17 @@ func (w *world) craftLTX(role string, nodeID uint64) ([]byte, ltx.Pos, error) {
 // postTx sends POST /tx to a node with the real HTTP client (the harness's own instance: the sender is
 // "H", not one of the nodes).
 func (w *world) postTx(to string, nodeID uint64, lockID int64, body []byte) (status int, err error) {
+	return w.postTxAs("H", to, nodeID, lockID, body)
+}
+
+// postTxAs delivers a /tx request; as = "R" for a delayed duplicate of a request the holder itself sent
+// (the network's doing, still the holder's message), "H" for a request the holder never sent.
+func (w *world) postTxAs(as, to string, nodeID uint64, lockID int64, body []byte) (status int, err error) {
 	cl, st := w.directClient()
 	ctx, cancel := context.WithTimeout(context.Background(), 20*time.Second)
 	defer cancel()
 	err = cl.Commit(ctx, w.n[to].URL, nodeID, w.db, lockID, bytes.NewReader(body))
-	w.rec.add(event{Node: "H", Kind: "http", Label: "POST /tx", To: to, LockID: lockID, Status: st.status, Err: errStr(err)})
+	w.rec.add(event{Node: as, Kind: "http", Label: "POST /tx", To: to, LockID: lockID, Status: st.status, Err: errStr(err)})
 	return st.status, err
 }
 
